@@ -120,17 +120,21 @@ def truthyAt (r : Res) (k : String) : Bool :=
 def fallbackRes (name : String) (url : Option String) : Res :=
   Res.new [(Key.str serviceNameKey, Val.sc (.str name))] url
 
-/-- `Resource.create(given, url)` with the detector's map; `.error` = the exception `":" + <non-str>` raises. -/
+def isText : Val → Bool
+  | .sc (.str _) => true
+  | _ => false
+
+/-- `Resource.create(given, url)` with the detector's map.  `.error` = the TypeError `":" + <non-text>` raises —
+    only when the source does not convert the attribute with str() (`fallbackCoercesWithStr`, read from the source). -/
 def Res.create (detected given : List (Key × Val)) (url : Option String) : Except String Res :=
   let resource := mergeChain (createChain.map (srcOf detected given url))
   if truthyAt resource serviceNameKey then .ok resource
   else
     match resource.get processExecutableNameKey with
-    | some (Val.sc (.str s)) => .ok (resource.merge (fallbackRes (defaultServiceName s) url))
     | some v =>
-      if v.truthy then .error "TypeError"
-      else .ok (resource.merge (fallbackRes (defaultServiceName "") url))
-    | none => .ok (resource.merge (fallbackRes (defaultServiceName "") url))
+      if v.truthy && !isText v && !fallbackCoercesWithStr then .error "TypeError"
+      else .ok (resource.merge (fallbackRes (defaultServiceName v.truthy v.pyStr) url))
+    | none => .ok (resource.merge (fallbackRes (defaultServiceName false "") url))
 
 /-- the resource loop of `Deep.start`: the resources the providers returned, merged in provider order -/
 def withPlugins (base : Res) (plugins : List Res) : Res := plugins.foldl Res.merge base
